@@ -348,22 +348,35 @@ func vfE5ReplayF9Pump(t *testing.T, name string) {
 	conn.Write([]byte("SUB f9 c\n"))
 	conn.Write([]byte("RDY 1\n"))
 	g.wait(t)
-	exit := vfE5Try(10*time.Second, func() { n.Exit() })
+	// a tree whose Exit waits for the connection handlers (and the pumps they join) before it flushes does not
+	// finish while the pump is parked; the unchanged tree does
+	exitDone := make(chan string, 1)
+	go func() { exitDone <- vfE5Try(20*time.Second, func() { n.Exit() }) }()
+	exit, early := "", false
+	select {
+	case exit = <-exitDone:
+		early = true
+	case <-time.After(500 * time.Millisecond):
+	}
 	close(g.release)
-	// the pump now registers m in the in-flight map of the closed channel and fails to send it
-	for d := time.Now().Add(2 * time.Second); time.Now().Before(d); {
-		ch.inFlightMutex.Lock()
-		k := len(ch.inFlightMessages)
-		ch.inFlightMutex.Unlock()
-		if k > 0 {
-			break
+	if !early {
+		exit = <-exitDone
+	} else {
+		// the pump now registers m in the in-flight map of the closed channel and fails to send it
+		for d := time.Now().Add(2 * time.Second); time.Now().Before(d); {
+			ch.inFlightMutex.Lock()
+			k := len(ch.inFlightMessages)
+			ch.inFlightMutex.Unlock()
+			if k > 0 {
+				break
+			}
+			time.Sleep(time.Millisecond)
 		}
-		time.Sleep(time.Millisecond)
 	}
 	conn.Close()
 	n2 := vfE5Restart(t, opts, dir)
 	depth := vfE5TotalDepth(n2, "f9", "c")
-	fmt.Printf("E5REPLAY %s acked=%v exit=%s depth_after_restart=%d lost=%v\n", name, acked, exit, depth, acked && depth == 0)
+	fmt.Printf("E5REPLAY %s acked=%v exit=%s exit_finished_while_pump_parked=%v depth_after_restart=%d lost=%v\n", name, acked, exit, early, depth, acked && depth == 0)
 	n2.Exit()
 }
 
